@@ -1,7 +1,13 @@
 /-
-  Proofs.C10ExtCex — the natural reading of `modified_count` ("the number of selected documents
-  whose content changed") is false of the model and of the code on documents built by an upsert
-  (known finding `modified-order-only`); it holds when no such document is stored.
+  Proofs.C10ExtCex — the repaired finding `modified-order-only` (library commit 5452702).
+
+  A document built by an upsert is stored as an OrderedDict; the change test of `_apply_update`
+  used to be `existing_document != snapshot` between two OrderedDicts, which is order-sensitive:
+  an update that only re-ordered the keys (`$rename c -> c`) was counted in `modified_count`, and
+  the natural reading of `modified_count` ("the number of selected documents whose content
+  changed") was false on that witness.  The test is now taken between plain dicts; the witness is
+  kept here as a regression example: the document IS rewritten (its keys change order) and
+  `modified_count` is 0.
 -/
 import Proofs.C10ExtModified
 import Proofs.C05
@@ -10,61 +16,32 @@ namespace MongoModel.Proofs.C10Ext
 open MongoModel MongoModel.Spec
 
 /-- the collection `update_one({_id: 1}, {$set: {c: 1, d: 2}}, upsert=True)` leaves on an empty
-    one: a single document, held as an OrderedDict -/
-def cOD : Coll :=
-  { docs := [(.int 1, .doc [("_id", .int 1), ("c", .int 1), ("d", .int 2)])], od := [.int 1] }
+    one: a single document (held, in the code, as an OrderedDict) -/
+def cUps : Coll :=
+  { docs := [(.int 1, .doc [("_id", .int 1), ("c", .int 1), ("d", .int 2)])], forceCreated := true }
 
-theorem cOD_is_upserted :
+theorem cUps_is_upserted :
     ((applyUpdateColl {} 0 {} (.doc [("_id", .int 1)])
-      (.doc [("$set", .doc [("c", .int 1), ("d", .int 2)])]) true false).1.docs == cOD.docs &&
-     (applyUpdateColl {} 0 {} (.doc [("_id", .int 1)])
-      (.doc [("$set", .doc [("c", .int 1), ("d", .int 2)])]) true false).1.od == cOD.od) = true := by
+      (.doc [("$set", .doc [("c", .int 1), ("d", .int 2)])]) true false).1.docs == cUps.docs) = true := by
   decide +kernel
 
-theorem cOD_inv : IdInv cOD :=
+theorem cUps_inv : IdInv cUps :=
   ⟨List.pairwise_singleton _ _, fun p hp => by
-    simp only [cOD, List.mem_singleton] at hp; subst hp; exact ⟨_, rfl, by decide⟩⟩
+    simp only [cUps, List.mem_singleton] at hp; subst hp; exact ⟨_, rfl, by decide⟩⟩
 
-theorem cOD_good : GoodKeys cOD := fun p hp => by
-  simp only [cOD, List.mem_singleton] at hp; subst hp
+theorem cUps_good : GoodKeys cUps := fun p hp => by
+  simp only [cUps, List.mem_singleton] at hp; subst hp
   exact ⟨MongoModel.Proofs.C05.scalar_symm _ rfl, by decide⟩
 
 def renameCC : Val := .doc [("$rename", .doc [("c", .str "c")])]
 
-theorem modified_content_false :
-    ¬ (∀ (cfg : Cfg) (now : Int) (c c' : Coll) (fs : Fields) (u : Val)
-        (sel : List (Val × Val)) (res : UpdateResult),
-        IdInv c → GoodKeys c → c.ttlIndexes = [] →
-        selectDocs (patchDT (.doc fs)) c.docs = .ok sel →
-        applyUpdateColl cfg now c (.doc fs) u false true = (c', .ok res) →
-        res.nModified = (sel.filter (contentChangedAfter c')).length) := by
-  intro H
-  have k : (match applyUpdateColl {} 0 cOD (.doc []) renameCC false true with
-      | (c', .ok r) => r.nModified == 1 && (cOD.docs.filter (contentChangedAfter c')).length == 0
-      | _ => false) = true := by decide +kernel
-  generalize hx : applyUpdateColl {} 0 cOD (.doc []) renameCC false true = x at k
-  obtain ⟨c', r⟩ := x
-  cases r with
-  | error e => simp at k
-  | ok res =>
-    simp only [Bool.and_eq_true, beq_iff_eq] at k
-    have hsel : selectDocs (patchDT (.doc [])) cOD.docs = .ok cOD.docs := by rfl
-    have := H {} 0 cOD c' [] renameCC cOD.docs res cOD_inv cOD_good rfl hsel hx
-    rw [k.1, k.2] at this
-    cases this
-
-/-- without upserted documents the change test is dict inequality -/
-theorem update_many_modified_plain (cfg : Cfg) (now : Int) (c c' : Coll) (fs : Fields) (u : Val)
-    (sel : List (Val × Val)) (res : UpdateResult)
-    (hi : IdInv c) (hg : GoodKeys c) (hn : c.ttlIndexes = []) (hod : c.od = [])
-    (hs : selectDocs (patchDT (.doc fs)) c.docs = .ok sel)
-    (h : applyUpdateColl cfg now c (.doc fs) u false true = (c', .ok res)) :
-    res.nModified = (sel.filter (contentChangedAfter c')).length := by
-  rw [(update_many_counts cfg now c c' fs u sel res hi hg hn hs h).2.1]
-  congr 1
-  apply List.filter_congr
-  intro p _
-  simp only [changedAfter, contentChangedAfter, Coll.isOD, hod, List.any_nil, Bool.false_eq_true,
-    if_false]
+/-- `update_many({}, {$rename: {c: "c"}})` on it: one document matched, its keys re-ordered
+    (`c` moves behind `d`), its content unchanged — `modified_count` is 0 -/
+theorem reorder_not_modified :
+    (match applyUpdateColl {} 0 cUps (.doc []) renameCC false true with
+     | (c', .ok r) =>
+       r.n == 1 && r.nModified == 0 && (cUps.docs.filter (contentChangedAfter c')).length == 0 &&
+       c'.docs.map (fun p => match p.2 with | .doc fs => dkeys fs | _ => []) == [["_id", "d", "c"]]
+     | _ => false) = true := by decide +kernel
 
 end MongoModel.Proofs.C10Ext
